@@ -28,7 +28,7 @@ func init() {
 		Run: ruleNextShape,
 	})
 	register(&Rule{
-		ID: "GC-SCAN", Props: []string{"C08", "C10"}, Floor: 5,
+		ID: "GC-SCAN", Props: []string{"C07", "C08", "C10"}, Floor: 5,
 		Doc: "graveyardWorker's low watermark starts at the table revision and is only ever lowered to a tracker's revision, every tracker participating (the loop has no other exit or filter); keys are collected only for objects with revision <= watermark; the write transaction covers exactly the tables with collected keys",
 		Run: ruleGCScan,
 	})
